@@ -1571,7 +1571,7 @@ fn main() {
     ];
     // Wall-clock per phase is recorded for calibration only; nothing is decided on it.
     let t0 = std::time::Instant::now();
-    let n_parse = ctx.volume(3_900, 78_000, 13, 390);
+    let n_parse = ctx.volume(1_300, 78_000, 13, 390);
     ctx.run_cases("parse", n_parse, |ctx, idx, rng| {
         ctx.arm("parse", 60.0);
         parse_case(ctx, idx, rng);
@@ -1579,7 +1579,7 @@ fn main() {
     });
     ctx.max("info_wall_ms_parse", t0.elapsed().as_millis() as u64);
     let t1 = std::time::Instant::now();
-    let n_merge = ctx.volume(9_600, 32_000, 6, 480);
+    let n_merge = ctx.volume(3_200, 32_000, 6, 480);
     ctx.run_cases("merge", n_merge, |ctx, idx, rng| {
         ctx.arm("merge", 300.0);
         merge_case(ctx, idx, rng);
